@@ -1,5 +1,5 @@
 (** C20: the token byte table regenerated from src/twisted/web/_abnf.py agrees with the model's [is_tchar]
-    (HttpRespBytes) on every byte value, and above 255 the model admits nothing. *)
+    (HttpRespBytes) on every byte value, and above 255 the model accepts nothing. *)
 From Coq Require Import List NArith Bool Lia.
 From TwLib Require Import HttpRespBytes.
 From C20 Require Import Gen.
